@@ -522,7 +522,8 @@ def _semantic_id(prog, m, c, fn, idname, extra):
             if ids not in r_: continue
             is_in = r_.startswith("('opq', 'in', " + ids + ',')
             is_eq = r_.startswith("('opq', 'cmp', 'Eq',")
-            if is_in and pol: why.append('membership established')
+            if "('[]', " in r_ and (", " + ids + ")") in r_: why.append('raising lookup while evaluating a test')        # network[id] read by the test itself
+            elif is_in and pol: why.append('membership established')
             elif is_eq and pol and ('zero' in r_ or 'ground' in r_): why.append('equals the reference label')
             elif is_in or is_eq: pass          # a membership / equality test that FAILED on this path establishes nothing
             else:
